@@ -10,6 +10,8 @@ raise through meson (rule 6).  Records (JSON lines through rec):
   h_signal  every os.killpg / os.kill the harness issues {pid, sig}
   h_reported SingleTestRunner.run returned a TIMEOUT/INTERRUPT result {pid, alive: is the process still running
             at the moment the harness reports the result}
+  h_limit_passed  complete_all(timeout=N>0) inside TestSubprocess.wait raised TimeoutError: by the harness' own
+            clock the limit of this test has passed while the process or its output pipes were still pending
   h_final   TestHarness.doit returned       {ret, counts}
   h_shake   number of injected sleeps (thorough): tiny asyncio.sleep at suspension points that really suspend:
             before/after `complete_all(futures)` / `complete(future)` when something is pending, and at the entry of
@@ -42,6 +44,8 @@ def make(shake: bool = False, seed: int = 0) -> T.Callable[[T.Callable[[dict], N
         import random
         from mesonbuild import mtest
 
+        import contextvars
+        current: T.Any = contextvars.ContextVar('c12_current_test')
         rng = random.Random(seed)
         active: T.Dict[int, T.Tuple[str, bool]] = {}
         nshake = [0]
@@ -121,6 +125,11 @@ def make(shake: bool = False, seed: int = 0) -> T.Callable[[T.Callable[[dict], N
         async def wait(self: T.Any, test: T.Any) -> None:
             try:
                 test._c12_pid = self._process.pid
+                try:
+                    it = int(test.env.get('MESON_TEST_ITERATION', '1'))
+                except Exception:
+                    it = -1
+                current.set((test.test.name, it, self._process.pid))
             except Exception:
                 pass
             await orig_wait(self, test)
@@ -167,33 +176,48 @@ def make(shake: bool = False, seed: int = 0) -> T.Callable[[T.Callable[[dict], N
 
         mtest.TestHarness.doit = doit
 
-        if shake:
-            orig_ca = mtest.complete_all
-            orig_c = mtest.complete
+        # the harness' own statement "the limit has passed with something still pending": complete_all(timeout=N)
+        # raising asyncio.TimeoutError for a positive N.  Which test it is comes from a context variable set by the
+        # wait() wrapper (each run_test task has its own context).
+        orig_ca = mtest.complete_all
+        orig_c = mtest.complete
 
-            async def complete_all(futures: T.Any, timeout: T.Any = None) -> None:
-                if timeout is not None:
-                    return await orig_ca(futures, timeout)
-                pending = False
+        async def complete_all(futures: T.Any, timeout: T.Any = None) -> None:
+            if timeout is not None:
                 try:
-                    pending = any(not f.done() for f in list(futures))
-                except Exception:
-                    pass
-                if pending:
-                    await jitter()
-                await orig_ca(futures, timeout)
-                if pending:
-                    await jitter()
+                    return await orig_ca(futures, timeout)
+                except asyncio.TimeoutError:
+                    try:
+                        cur = current.get(None)
+                        if cur is not None and timeout > 0:
+                            safe({'ev': 'h_limit_passed', 'name': cur[0], 'it': cur[1], 'pid': cur[2],
+                                  'timeout': timeout, 't': time.monotonic_ns()})
+                    except Exception:
+                        pass
+                    raise
+            if not shake:
+                return await orig_ca(futures, timeout)
+            pending = False
+            try:
+                pending = any(not f.done() for f in list(futures))
+            except Exception:
+                pass
+            if pending:
+                await jitter()
+            await orig_ca(futures, timeout)
+            if pending:
+                await jitter()
 
-            async def complete(future: T.Any) -> None:
-                pending = not future.done()
-                if pending:
-                    await jitter()
-                await orig_c(future)
-                if pending:
-                    await jitter()
+        async def complete(future: T.Any) -> None:
+            pending = not future.done()
+            if pending:
+                await jitter()
+            await orig_c(future)
+            if pending:
+                await jitter()
 
-            mtest.complete_all = complete_all
+        mtest.complete_all = complete_all
+        if shake:
             mtest.complete = complete
 
     return install
